@@ -404,7 +404,10 @@ def compare(exp: Desc, got: Desc) -> list:
     if exp.groups != got.groups:
         out.append((CL_GROUPS, f"clone groups (0-based pre-order positions sharing a data_id) {got.groups} != {exp.groups}"))
     else:
-        bad = [g for g, se, sg in zip(exp.groups, exp.shared, got.shared) if se and not sg]
+        # C12: only a repeated occurrence "whose kind equals that of its first occurrence" is stored as a
+        # reference; clones of differing kind are stored in full and rebuilt by the mapper, so object
+        # sharing after load is required for same-kind groups only (the data_id partition is checked above)
+        bad = [g for g, se, sg in zip(exp.groups, exp.shared, got.shared) if se and not sg and len({exp.kinds[i] for i in g}) == 1]
         if bad:
             out.append((CL_SHARED, f"nodes at pre-order positions {bad[0]} share data_id but hold distinct data objects after load (one shared object before save)"))
     return out
